@@ -274,6 +274,7 @@ typedef struct {
 	/* scripted behaviour (C03): */
 	int force_verdict;          /* -1: honest; else value returned by end_chain */
 	const br_x509_pkey *force_pkey;   /* NULL: honest */
+	int force_null_pkey;        /* get_pkey returns NULL although end_chain reported success */
 	int force_usages;           /* -1 honest */
 	uint64_t cur_hash;
 } tp_xwrap;
@@ -341,6 +342,7 @@ tpx_get_pkey(const br_x509_class *const *ctx, unsigned *usages)
 	pk = w->inner->vtable->get_pkey(
 		(const br_x509_class *const *)&w->inner->vtable, usages);
 	if (w->force_pkey != NULL) pk = w->force_pkey;
+	if (w->force_null_pkey) pk = NULL;
 	if (w->force_usages >= 0 && usages != NULL) *usages = (unsigned)w->force_usages;
 	return pk;
 }
@@ -379,6 +381,7 @@ typedef struct {
 	int seeder_mode;          /* 1 fixed (default), 2 fail, 3 none, 0 untouched */
 	int inject_entropy;       /* call br_ssl_engine_inject_entropy(seed) before reset */
 	int reuse_ctx;            /* do not re-initialise the context (resumption on same client) */
+	int ta_plain_names;       /* server, client_auth: br_ssl_server_set_trust_anchor_names instead of _alt */
 	const unsigned char *inject_bytes;   /* with inject_entropy: 32 bytes to inject instead of seed[] */
 	int mismatch_key;         /* server: private key that does not match the chain; client: same for the client certificate */
 	/* hooks for property-specific configuration just before reset */
@@ -504,7 +507,14 @@ tp_ep_start(tp_ep *ep, const tp_cfg *cfg)
 				br_x509_minimal_set_rsa(ep->xc, br_rsa_pkcs1_vrfy_get_default());
 				br_x509_minimal_set_ecdsa(ep->xc, br_ec_get_default(),
 					br_ecdsa_vrfy_asn1_get_default());
-				br_ssl_server_set_trust_anchor_names_alt(ep->sc, tp_fx.tas, 3);
+				if (cfg->ta_plain_names) {
+					static br_x500_name tp_ta_names[3];
+					int q;
+					for (q = 0; q < 3; q ++) tp_ta_names[q] = tp_fx.tas[q].dn;
+					br_ssl_server_set_trust_anchor_names(ep->sc, tp_ta_names, 3);
+				} else {
+					br_ssl_server_set_trust_anchor_names_alt(ep->sc, tp_fx.tas, 3);
+				}
 			}
 			if (cfg->cache != NULL) {
 				br_ssl_server_set_cache(ep->sc, cfg->cache);
